@@ -112,16 +112,39 @@ def text_only_attrs(cls):
     init = cls.find_method("__init__")
     names = set()
     if init is not None:
-        for st in init.node.body:
-            if isinstance(st, ast.If) and "isinstance(data, dict)" in \
-                    unparse(st.test):
-                for n in ast.walk(ast.Module(body=st.orelse,
-                                             type_ignores=[])):
-                    if isinstance(n, ast.Call) and \
-                            isinstance(n.func, ast.Attribute) and \
-                            isinstance(n.func.value, ast.Name) and \
-                            n.func.value.id == init.self_name:
-                        names.add(n.func.attr)
+        def self_calls(stmts):
+            for n in ast.walk(ast.Module(body=list(stmts), type_ignores=[])):
+                if isinstance(n, ast.Call) and \
+                        isinstance(n.func, ast.Attribute) and \
+                        isinstance(n.func.value, ast.Name) and \
+                        n.func.value.id == init.self_name:
+                    names.add(n.func.attr)
+
+        def dict_test(test):
+            """+1: true for a dictionary, -1: false for one, 0: other test"""
+            sign = 1
+            while isinstance(test, ast.UnaryOp) and \
+                    isinstance(test.op, ast.Not):
+                sign, test = -sign, test.operand
+            if isinstance(test, ast.Call) and \
+                    isinstance(test.func, ast.Name) and \
+                    test.func.id == "isinstance" and len(test.args) == 2 and \
+                    unparse(test.args[1]) == "dict":
+                return sign
+            return 0
+        body = init.node.body
+        for i, st in enumerate(body):
+            if not isinstance(st, ast.If):
+                continue
+            sign = dict_test(st.test)
+            if not sign:
+                continue
+            on_dict, on_text = (st.body, st.orelse) if sign > 0 else \
+                (st.orelse, st.body)
+            self_calls(on_text)
+            if on_dict and isinstance(on_dict[-1], ast.Return):
+                # early exit of the dictionary path: the rest is text-only
+                self_calls(body[i + 1:])
     if not names:
         raise AnalysisError("anchor vanished: Line.__init__ no longer "
                             "separates construction from a dictionary")
@@ -284,20 +307,23 @@ def run(ctx):
     if len(setters) != 1:
         raise AnalysisError("anchor vanished: the setter closure of "
                             "_define_field_methods")
-    # the accessor's setter: `self.<method>(fieldname, value)`
-    calls = [n for n in ast.walk(setters[0]) if isinstance(n, ast.Call) and
-             isinstance(n.func, ast.Attribute) and
-             isinstance(n.func.value, ast.Name) and
-             n.func.value.id == setters[0].args.args[0].arg]
-    if len(calls) != 1 or len(setters[0].body) != 1 or \
-            [unparse(a) for a in calls[0].args] != ["fieldname", "value"] \
-            or calls[0].keywords:
-        raise AnalysisError("the accessor setter is no longer one call "
-                            "self.<method>(fieldname, value)")
-    f_acc = seg.find_method(calls[0].func.attr)
-    if f_acc is None:
-        raise AnalysisError("accessor setter target %s not found" %
-                            calls[0].func.attr)
+    # the accessor's setter is interpreted as the closure it is, with the
+    # free variable of _define_field_methods (its field name) bound
+    fieldname_param = [x.arg for x in f_def.node.args.args][1:2]
+    if not fieldname_param or len(setters[0].args.args) != 2:
+        raise AnalysisError("anchor vanished: _define_field_methods(self, "
+                            "<fieldname>) / setter(self, value)")
+
+    def call_accessor(ln, value, h):
+        from ..tables import Evaluator, Closure, Raised
+        outer = Evaluator(repo, f_def.module, {fieldname_param[0]: "xx"},
+                          None, h)
+        outer.func = f_def
+        try:
+            v = Closure(setters[0], outer).call(outer, [ln, value], {})
+            return ("return", v, outer.events)
+        except Raised as r:
+            return ("raise", r.cls, outer.events)
 
     class TagHooks(CloneHooks):
         def before_inline(self, ev, func, args, kwargs):
@@ -322,7 +348,7 @@ def run(ctx):
             return eval_function(repo, f_set, [ln, "xx", None], hooks=h)
         if op == "delete":
             return eval_function(repo, f_del, [ln, "xx"], hooks=h)
-        return eval_function(repo, f_acc, [ln, "xx", value], hooks=h)
+        return call_accessor(ln, value, h)
 
     for vl, kind in itertools.product((0, 1, 2, 3), ("dict", "list")):
         for n in (1, 2, 3):
